@@ -49,6 +49,10 @@ def stress_jobs(rng, n):
     jobs.append(dict(sym="qr", content=[65] * 1853, p=[3, 2]))
     jobs.append(dict(sym="qr", content=[97] * 2954, p=[0, rng.choice([0, 3])]))
     jobs.append(dict(sym="qr", content=list(b"12345x"), p=[1, 1]))
+    for c in ("\u0080", "AB\u0080", "\x7f", "A\u00e9", "12\u0660"):      # characters just outside each alphabet: refused or byte mode, never fatal
+        jobs.append(dict(sym="qr", content=list(c.encode("utf-8")), p=[rng.randrange(4), rng.choice([0, 2, 1])]))
+    jobs.append(dict(sym="c128", content=list("A\u0080".encode("utf-8")), p=[]))
+    jobs.append(dict(sym="c39", content=list("A\u0080".encode("utf-8")), p=[1, 1]))
     jobs.append(dict(sym="dm", content=[65] * 1559, p=[]))
     jobs.append(dict(sym="aztec", content=[200] * 3200, p=[33, 0]))
     jobs.append(dict(sym="pdf", content=[97] * 2800, p=[rng.randrange(9)]))
